@@ -37,3 +37,12 @@ func zzExpireFirstDeadline() {
 	}
 	zzSettle()
 }
+
+// tickers (the server's ping watchdog): a harness-owned channel that fires only when told
+var zzTickers []chan time.Time
+
+func zzNewTicker(d time.Duration) *time.Ticker {
+	ch := make(chan time.Time, 1)
+	zzTickers = append(zzTickers, ch)
+	return &time.Ticker{C: ch}
+}
